@@ -559,6 +559,10 @@ func trackCurrent(src string, modules map[string]string) {
 	os.WriteFile(trackPath, b, 0o644)
 }
 
+// TrackCurrent - the same for checks that call the interpreter directly (note: a description
+// of the case about to run)
+func TrackCurrent(note string) { trackCurrent(note, nil) }
+
 var trackPath = func() string {
 	if os.Getenv("VERIF_TRACK") == "" || os.Getenv("VERIF_OUT") == "" {
 		return ""
